@@ -208,6 +208,14 @@ def session(arg):
                     break
             out['pending_seen'] = p.buffer if isinstance(p.buffer, str) else p.buffer.decode('latin-1')
 
+        if case.get('dead_first'):
+            # a short-lived child: it prints its last output and exits, pexpect learns that it is gone (isalive()), and only then is interact()
+            # called - what the child left in the terminal is still output of the child
+            n_ = [st[1] for st in case['steps'] if st[0] == 'burst_exit'][0]
+            os.write(ctl, b'B %d\n' % n_)
+            wait(lambda: not p.isalive(), 3.0)
+            out['dead_first_alive'] = p.isalive()
+
         def drain():
             while not stop.is_set():
                 r, _, _ = select.select([om] + ([pr] if pr is not None else []), [], [], 0.02)
@@ -259,6 +267,8 @@ def session(arg):
                     wait(lambda: len(display) >= n0 + len(apply_f(case.get('fout'), b)), 2.0)
                     if not apply_f(case.get('fout'), b):
                         time.sleep(0.08)          # nothing to wait for on the display: let the loop read this chunk on its own
+                elif st[0] == 'burst_exit' and case.get('dead_first'):
+                    pass
                 elif st[0] == 'burst_exit':
                     exit_sent.set()
                     os.write(ctl, b'B %d\n' % st[1])
@@ -496,6 +506,10 @@ CORPUS = [
     dict(steps=[['burst_exit', 3500]], esc=chr(29), poll=True),
     dict(steps=[T(b'abc', 3), ['burst_exit', 16000]], esc=chr(29)),
     dict(steps=[['burst_exit', 100000]], esc=chr(29)),
+    # the child printed and exited before interact() was called (spawn('ls'); ...; interact()): its output is still shown
+    dict(steps=[['burst_exit', 1500]], esc=chr(29), dead_first=True),
+    dict(steps=[['burst_exit', 40]], esc=chr(29), dead_first=True, pending='pending text here', poll=True),
+    dict(steps=[['burst_exit', 2500]], esc=None, dead_first=True, encoding='latin-1', logs=True),
     dict(steps=[S_(b'bye'), ['quit']], esc=chr(29)),
     dict(steps=[S_(b'bye'), ['quit']], esc=chr(29), odd_tty=True),
     dict(steps=[S_(b'to the pipe'), T(b'abc' + ESC + b'xyz')], esc=chr(29), split_out=True),
@@ -581,6 +595,9 @@ def rand_case(rng):
         case['twice'] = True
     if rng.random() < 0.25 and not case['pending']:
         case['split_out'] = True
+    if steps[-1][0] == 'burst_exit' and steps[-1][1] <= 2500 and rng.random() < 0.6:
+        case['dead_first'] = True
+        case['steps'] = [steps[-1]]
     return case
 
 
